@@ -228,6 +228,10 @@ package desync
 //@   lit 1: assert@loop1.iterend $first ==> s.ws.$stored[c.ID]
 //@   lit 1: ghost@loop1.exit $done = true
 //@   lit 1: ensures r0 == nil ==> $done
+//# the same over every StoreChunk call made for the job (a retry that finds the ID already claimed proves nothing)
+//@   lit 1: ghost@loop1.head $claimed = false
+//@   lit 1: ghost@after:StoreChunk $claimed = $claimed || $first
+//@   lit 1: assert@loop1.iterend $claimed ==> s.ws.$stored[c.ID]
 
 //@ func Copy
 //@   prop C06 C07
@@ -410,8 +414,9 @@ package desync
 //@   ghost@loop4.exit $eof = true
 //@   ensures !MockValidate && err == nil ==> $eof
 
+//@ ghost var $claimed bool
 //@ func ChunkStream
-//@   prop C07 C02
+//@   prop C07 C02 C06
 //@   safety none
 //@   requires wfChunker(&c) && len(hashTable) == 256 && (forall b int :: 0 <= b && b < 256 ==> hashTable[b] == tbl(b))
 //@   loop 2: invariant wfChunker(&c) && len(hashTable) == 256 && (forall b int :: 0 <= b && b < 256 ==> hashTable[b] == tbl(b))
@@ -434,6 +439,11 @@ package desync
 //@   ghost@afterstmt:num++ $fed = $fed + 1
 //@   loop 2: invariant @C02 $fed == num && num >= 0
 //@   lit 2: assert@before:recordResult @C02 idxChunk.Start == c.start && idxChunk.Size == len(c.b) && idxChunk.ID == H(bytes(c.b))
+//# C06: if any StoreChunk call made for a job was the first to claim the chunk's ID, the chunk is in the store
+//# when the worker moves on to the next job (a second call that finds the ID already claimed proves nothing)
+//@   lit 2: ghost@loop1.head $claimed = false
+//@   lit 2: ghost@after:StoreChunk $claimed = $claimed || $first
+//@   lit 2: assert@loop1.iterend @C06 $claimed ==> s.ws.$stored[chunk.id]
 //@   loop 3: invariant @C02 0 <= i && forall k int :: 0 <= k && k < i ==> chunks[k] == results[k]
 //@   ensures @C02 r1 == nil ==> r0.Index.ChunkSizeMin == c.min && r0.Index.ChunkSizeAvg == c.avg && r0.Index.ChunkSizeMax == c.max
 //@   ensures @C02 r1 == nil ==> (r0.Index.FeatureFlags & CaFormatSHA512256 != 0 <==> algOf(Digest) == crypto.SHA512_256)
@@ -709,10 +719,11 @@ package desync
 
 //@ spec func isNullAt(l *sparseFileLoader, k int) bool = l.chunks[k].ID == l.nullChunk.ID
 
+//@ ghost var $derr error
 //@ func (l *sparseFileLoader) loadChunk
 //@   prop C10
 //@   requires wfSparse(l) && 0 <= i && i < len(l.chunks) && held(l.mu) == 0 && 8*len(l.done) >= len(l.chunks)
-//@   modifies l.done, l.mu, allmem(uint8), heap(sparseIndexChunk.mu), heap(Chunk.data), l.s.$gets, l.s.$lastErr, $attempts, $last, $fv
+//@   modifies l.done, l.mu, allmem(uint8), heap(sparseIndexChunk.mu), heap(Chunk.data), l.s.$gets, l.s.$lastErr, $attempts, $last, $fv, $derr
 //@   ensures r0 == nil ==> bitAt(bytes(l.done), i)
 //@   ensures held(l.mu) == 0 && len(l.done) == old(len(l.done))
 //# bits already set stay set (what other loaders and this one did is monotone)
@@ -724,6 +735,11 @@ package desync
 //@   ghost@after:WriteAt $last = $r1
 //@   assert@after:WriteAt $a1 == l.chunks[i].Start && $a0 == b
 //@   oncall Set: requires $attempts == 1 && $last == nil && $arg0 == i && $arg1
+//# nothing is written and no bit is set for a chunk whose data could not be decoded
+//@   ghost@entry $derr = nil
+//@   ghost@after:Data $derr = $r1
+//@   oncall WriteAt: requires $derr == nil
+//@   oncall Set: requires $derr == nil
 
 //@ func (l *sparseFileLoader) loadRange
 //@   prop C10
@@ -852,7 +868,7 @@ package desync
 //@   loop 1: invariant @C04 forall k int :: 0 < k && k < $i ==> table.Items[k-1].Offset <= table.Items[k].Offset
 
 //@ func (a *ArchiveDecoder) Next
-//@   prop C19 C18
+//@   prop C19 C18 C05
 //@   safety C19
 //@   checks alloc
 //@   requires $consumed >= 0
@@ -861,6 +877,9 @@ package desync
 //@   ensures $consumed >= old($consumed)
 //@   ensures @C18 confined(a.dir) && (r1 == nil ==> nodeConfined(r0))
 //@   loop 1: invariant $consumed >= old($consumed) && confined(a.dir) && (name == "" || safeName(name))
+//# C05: an extended attribute is recorded under the part of the element before its first NUL byte, with
+//# everything after that byte as its value (values may contain NUL bytes themselves)
+//@   assert@mapstore:xattrs @C05 $k == d.NameAndValue[0:indexRune(d.NameAndValue, 0)] && $v == d.NameAndValue[indexRune(d.NameAndValue, 0)+1:]
 
 //# the server allocates for chunk data coming from its own store, not from the request stream
 //@ func (s *ProtocolServer) Serve
@@ -1828,7 +1847,8 @@ package desync
 //@ func (s *FileSeed) LongestMatchWith
 //@   prop C01
 //@   nochecks bounds
-//# positions recorded in s.pos are positions of s.index.Chunks (NewIndexSeed builds the map that way)
+//# positions recorded in s.pos are positions of s.index.Chunks: RegenerateIndex re-establishes this (posValid, proved);
+//# NewIndexSeed builds the map the same way (its proof over the local struct value does not go through: assumed)
 //@   assume@before:maxMatchFrom 0 <= p && p <= len(s.index.Chunks)
 //@   ensures 0 <= r0 && r0 <= len(chunks)
 //@   loop 1: invariant 0 <= max && max <= len(chunks) && max == len(match) && limit >= 0
@@ -1946,3 +1966,50 @@ package desync
 //@   prop C14
 //@   safety none
 //@   lit 1: ensures fresh(r0)
+
+// ---------------------------------------------------------------------------------------------
+// C01: the position map of a file seed. Every position recorded for a chunk ID is a position of the
+// seed's current index. Established when the map is (re)built from an empty map - in NewIndexSeed
+// and in RegenerateIndex -, relied upon by LongestMatchWith (positions index s.index.Chunks).
+
+//@ spec func posValid(s *FileSeed, n int) bool = forall id ChunkID, a int :: has(s.pos, id) && inrng(s.pos[id], a) ==> 0 <= elem(s.pos[id], a) && elem(s.pos[id], a) < n
+
+//@ func (s *FileSeed) RegenerateIndex
+//@   prop C01
+//@   safety none
+//@   requires held(s.mu) == 0
+//@   modifies all
+//@   loop 1: invariant @C01 posValid(s, $i) && $i <= len(s.index.Chunks)
+//@   ensures @C01 r0 == nil ==> posValid(s, len(s.index.Chunks))
+
+//# the parallel file chunker is outside the reach of these contracts (see C02); for callers it is a function
+//# that reads a file and returns an index, without touching the caller's data structures
+//@ func IndexFromFile
+//@   trusted
+//@   pure
+
+//@ func NewProgressBar
+//@   trusted
+//@   pure
+
+// ---------------------------------------------------------------------------------------------
+// C02, sequential facts about the hand-over test of the parallel chunker (the equality of the parallel
+// and the single-stream result for all interleavings is NOT decided, see DESIGN 0a): syncWith reports a
+// match only for a bucket entry with the same start and size, and reports zero bytes ahead only when
+// both the bucket entry it stopped at and the one before it are null chunks.
+
+//@ ghost var $syncNull bool
+//@ ghost var $prevNull bool
+//@ func (c *pChunker) syncWith
+//@   prop C02
+//@   safety none
+//@   modifies all, $syncNull, $prevNull
+//@   chan c.results: true
+//@   ghost@entry $syncNull = false
+//@   ghost@entry $prevNull = false
+//@   ghost@loop1.exit $syncNull = (c.sync.ID == c.nullChunk.ID)
+//@   ghost@loop1.exit $prevNull = (prev.ID == c.nullChunk.ID)
+//@   ensures r0 ==> chunk.Start == c.sync.Start && chunk.Size == c.sync.Size && r1 == 0
+//@   ensures r1 > 0 ==> $syncNull && $prevNull
+//@   loop 1: invariant true
+//@   loop 2: invariant $syncNull && $prevNull
